@@ -11,6 +11,8 @@ from core import enc_bool, enc_str
 HERE = os.path.dirname(os.path.abspath(__file__))
 
 COLOR_SYSTEMS = [None, "standard", "256", "truecolor", "windows"]
+JUSTIFY_CODE = {None: "-", "default": "d", "left": "l", "center": "c", "right": "r", "full": "f"}
+OVERFLOW_CODE = {None: "-", "fold": "f", "crop": "c", "ellipsis": "e", "ignore": "i"}
 
 
 class _File(io.StringIO):
@@ -26,16 +28,23 @@ class _File(io.StringIO):
 class Env:
     """console.width, ascii_only (via the file's encoding), legacy_windows, safe_box, no_color, color_system."""
 
-    def __init__(self, width, ascii_only=False, legacy_windows=False, safe_box=True, no_color=False, color_system=None):
+    def __init__(self, width, ascii_only=False, legacy_windows=False, safe_box=True, no_color=False, color_system=None, height=25,
+                 justify=None, overflow=None, no_wrap=None):
         self.width, self.ascii_only, self.legacy_windows = width, ascii_only, legacy_windows
         self.safe_box, self.no_color, self.color_system = safe_box, no_color, color_system
+        self.height = height
+        # ConsoleOptions handed to the frame besides the width: they travel unchanged to the children (the oracle)
+        self.justify, self.overflow, self.no_wrap = justify, overflow, no_wrap
+
+    def options(self, console, mw):
+        return console.options.update(width=mw, justify=self.justify, overflow=self.overflow, no_wrap=self.no_wrap)
 
     def console(self):
         from rich.console import Console
 
         c = Console(
             width=self.width,
-            height=25,
+            height=self.height,
             file=_File("ascii" if self.ascii_only else "utf-8"),
             color_system=self.color_system,
             legacy_windows=self.legacy_windows,
@@ -52,11 +61,12 @@ class Env:
 
     def enc(self):
         return ",".join(
-            [str(self.width), enc_bool(self.ascii_only), enc_bool(self.legacy_windows), enc_bool(self.safe_box), enc_bool(self.no_color), str(COLOR_SYSTEMS.index(self.color_system))]
+            [str(self.width), enc_bool(self.ascii_only), enc_bool(self.legacy_windows), enc_bool(self.safe_box), enc_bool(self.no_color), str(COLOR_SYSTEMS.index(self.color_system)), str(self.height),
+             JUSTIFY_CODE[self.justify], OVERFLOW_CODE[self.overflow], "-" if self.no_wrap is None else enc_bool(self.no_wrap)]
         )
 
     def __repr__(self):
-        return f"Env(width={self.width}, ascii_only={self.ascii_only}, legacy_windows={self.legacy_windows}, safe_box={self.safe_box}, no_color={self.no_color}, color_system={self.color_system!r})"
+        return f"Env(width={self.width}, ascii_only={self.ascii_only}, legacy_windows={self.legacy_windows}, safe_box={self.safe_box}, no_color={self.no_color}, color_system={self.color_system!r}, height={self.height}, justify={self.justify!r}, overflow={self.overflow!r}, no_wrap={self.no_wrap!r})"
 
 
 def box_names():
@@ -74,6 +84,61 @@ def box_names():
 # opts are dicts.  `build` makes the real rich object (fresh every call), `enc` the model request.
 
 ALIGN_CODE = {"left": "l", "center": "c", "right": "r"}
+
+_IDS = {}
+
+
+def _vid(v):
+    """ids for values that the model only compares with == (colours, links)"""
+    if v is None:
+        return "-"
+    return str(_IDS.setdefault(v, len(_IDS)))
+
+
+def enc_style(st):
+    """the compared fields of a Style: set_attributes.attributes.color.bgcolor.link  (None -> '-')"""
+    if st is None:
+        return "-"
+    return f"{st._set_attributes}.{st._attributes}.{_vid(st._color)}.{_vid(st._bgcolor)}.{_vid(st._link or None)}"
+
+
+def style_of(console, name):
+    return None if name is None else console.get_style(name)
+
+
+def enc_text(console, t):
+    """a Text for the model (Model/Text.lean): plain;base style;nspans;(start;end;style)*;justify;overflow;no_wrap;end;tab_size"""
+    from rich.style import Style
+
+    def rs(x):
+        return enc_style(console.get_style(x, default=Style.null()))
+
+    toks = [enc_str(t.plain), rs(t.style), str(len(t.spans))]
+    for sp in t.spans:
+        toks += [str(sp.start), str(sp.end), rs(sp.style)]
+    toks += [JUSTIFY_CODE[t.justify], OVERFLOW_CODE[t.overflow], "-" if t.no_wrap is None else enc_bool(t.no_wrap), enc_str(t.end),
+             "-" if t.tab_size is None else str(t.tab_size)]
+    return ";".join(toks)
+
+
+def title_text(title):
+    """the Text that Panel._title starts from"""
+    from rich.text import Text
+
+    return Text.from_markup(title) if isinstance(title, str) else title.copy()
+
+
+STYLE_COMPLETE = {"L", "PAD", "PANEL", "ALIGN", "CONSTRAIN", "STYLED", "VC", "RULET"}
+
+
+def style_complete(e):
+    """every segment style of this expression is modelled (frames whose own styles are not: Rule, Bar, ProgressBar, Tree)"""
+    k = e[0]
+    if k not in STYLE_COMPLETE:
+        return False
+    if k in ("L", "RULET"):
+        return True
+    return style_complete(e[-1] if k != "PAD" else e[3])
 
 
 def _opt(n):
@@ -104,38 +169,64 @@ def _tri(v):
     return "-" if v is None else enc_bool(v)
 
 
-def enc_node(node, names, console):
+def enc_node(node, names, console, shift=0):
     label, gs, expanded, children = node
     st = console.get_style(gs)
-    return ";".join(["N", _tri(st.bold), _tri(st.underline2), enc_bool(expanded), str(len(children)), enc(label, names, console)] + [enc_node(c, names, console) for c in children])
+    return ";".join(["N", _tri(st.bold), _tri(st.underline2), enc_bool(expanded), str(len(children)), enc(label, names, console, shift)] + [enc_node(c, names, console, shift) for c in children])
 
 
-def enc(e, names, console=None):
+COLS_SHIFT = [0]  # number of base leaves: inside Columns the items are rendered with the options of a default table Column
+
+
+def enc(e, names, console=None, shift=0):
     k = e[0]
     if k == "L":
-        return f"L;{e[1]}"
+        return f"L;{e[1] + shift}"
     if k == "TREE":
-        return "TREE;" + enc_node(e[1], names, console)
+        return "TREE;" + enc_node(e[1], names, console, shift)
     if k == "PAD":
         d = _dims(e[1])
-        return ";".join(["PAD", enc_bool(e[2]), str(len(d))] + [str(x) for x in d] + [enc(e[3], names, console)])
+        st = enc_style(console.get_style(e[4] if len(e) > 4 else "none"))
+        return ";".join(["PAD", st, enc_bool(e[2]), str(len(d))] + [str(x) for x in d] + [enc(e[3], names, console, shift)])
     if k == "PANEL":
         o = e[1]
         d = _dims(o.get("padding", (0, 1)))
         sb = o.get("safe_box")
         return ";".join(
-            ["PANEL", str(names.index(o.get("box", "ROUNDED"))), enc_str(title_plain(o.get("title"))), ALIGN_CODE[o.get("title_align", "center")],
+            ["PANEL", enc_style(console.get_style(o.get("style", "none"))), enc_style(console.get_style(o.get("border_style", "none"))),
+             str(names.index(o.get("box", "ROUNDED")))]
+            + (["S", enc_str(title_plain(o.get("title")))] if o.get("_tmode", "T") == "S" or o.get("title") is None
+               else ["T", enc_bool(bool(o["title"])), enc_text(console, title_text(o["title"]))])
+            + [ALIGN_CODE[o.get("title_align", "center")],
              "-" if sb is None else enc_bool(sb), enc_bool(o.get("expand", True)), _opt(o.get("width")), str(len(d))]
             + [str(x) for x in d]
-            + [enc(e[2], names, console)]
+            + [enc(e[2], names, console, shift)]
         )
     if k == "ALIGN":
         o = e[1]
-        return ";".join(["ALIGN", ALIGN_CODE[o["align"]], enc_bool(o.get("pad", True)), _opt(o.get("width")), enc(e[2], names, console)])
+        return ";".join(["ALIGN", enc_style(style_of(console, o.get("style"))), ALIGN_CODE[o["align"]], enc_bool(o.get("pad", True)), _opt(o.get("width")), enc(e[2], names, console, shift)])
     if k == "CONSTRAIN":
-        return ";".join(["CONSTRAIN", _opt(e[1]), enc(e[2], names, console)])
+        return ";".join(["CONSTRAIN", _opt(e[1]), enc(e[2], names, console, shift)])
     if k == "STYLED":
-        return "STYLED;" + enc(e[1], names, console)
+        return "STYLED;" + enc_style(console.get_style(e[2] if len(e) > 2 else "bold")) + ";" + enc(e[1], names, console, shift)
+    if k == "VC":
+        return "VC;" + enc_style(style_of(console, e[1])) + ";" + enc(e[2], names, console, shift)
+    if k == "COLS":
+        o = e[1]
+        d = _dims(o.get("padding", (0, 1)))
+        al = o.get("align")
+        return ";".join(["COLS", str(len(d))] + [str(x) for x in d]
+                        + [_opt(o.get("width")), enc_bool(o.get("equal", False)), enc_bool(o.get("column_first", False)),
+                           enc_bool(o.get("right_to_left", False)), enc_bool(o.get("expand", False)), "-" if al is None else ALIGN_CODE[al], str(len(e[2]))]
+                        + [enc(x, names, console, COLS_SHIFT[0]) for x in e[2]])
+    if k == "RULET":
+        from rich.text import Text
+
+        o = e[1]
+        t = o.get("title", "")
+        tt = t.copy() if isinstance(t, Text) else (console.render_str(t, style="rule.text") if t else Text(""))
+        return ";".join(["RULET", enc_bool(bool(t)), enc_text(console, tt), enc_str(o.get("characters", "─")), enc_str(o.get("end", "\n")),
+                         ALIGN_CODE[o.get("align", "center")], enc_style(console.get_style(o.get("style", "rule.line")))])
     if k == "RULE":
         o = e[1]
         return ";".join(["RULE", enc_str(o.get("_title_plain", "")), enc_str(o.get("characters", "─")), enc_str(o.get("end", "\n")), ALIGN_CODE[o.get("align", "center")]])
@@ -178,11 +269,11 @@ def build(e, leaves, console=None):
         return mk(e[1], None)
     if k == "PAD":
         d = _dims(e[1])
-        if not e[2] and len(d) == 4 and d[:3] == [0, 0, 0]:
+        if not e[2] and len(d) == 4 and d[:3] == [0, 0, 0] and (len(e) <= 4 or e[4] == "none"):
             return Padding.indent(build(e[3], leaves), d[3])  # the documented shortcut for exactly this
         return Padding(build(e[3], leaves), e[1], expand=e[2], style=e[4] if len(e) > 4 else "none")
     if k == "PANEL":
-        o = dict(e[1])
+        o = {kk: vv for kk, vv in e[1].items() if not kk.startswith("_")}
         if "box" in o:
             o["box"] = getattr(rbox, o["box"])
         t = o.get("title")
@@ -198,11 +289,19 @@ def build(e, leaves, console=None):
         if o.get("width") is None or o["width"] % 2 == 0:  # half through the classmethods, half through the constructor
             return getattr(Align, a)(build(e[2], leaves), **o)
         return Align(build(e[2], leaves), a, **o)
+    if k == "COLS":
+        from rich.columns import Columns
+
+        return Columns([build(x, leaves) for x in e[2]], **e[1])
     if k == "CONSTRAIN":
         return Constrain(build(e[2], leaves), e[1])
     if k == "STYLED":
-        return Styled(build(e[1], leaves), "bold")
-    if k == "RULE":
+        return Styled(build(e[1], leaves), e[2] if len(e) > 2 else "bold")
+    if k == "VC":
+        from rich.align import VerticalCenter
+
+        return VerticalCenter(build(e[2], leaves), style=e[1])
+    if k in ("RULE", "RULET"):
         o = {kk: vv for kk, vv in e[1].items() if not kk.startswith("_")}
         t = o.get("title", "")
         if isinstance(t, Text):
@@ -239,26 +338,43 @@ def rule_title_plain(console, title):
 
 
 # ----------------------------------------------------------------------------------------------- rendering on real rich
-def render_segments(console, obj, mw):
-    return list(console.render(obj, console.options.update(width=mw)))
+def render_segments(console, obj, mw, env=None):
+    return list(console.render(obj, env.options(console, mw) if env is not None else console.options.update(width=mw)))
 
 
-def render_text(console, obj, mw):
-    segs = render_segments(console, obj, mw)
+def render_text(console, obj, mw, env=None):
+    segs = render_segments(console, obj, mw, env)
     return "".join(s.text for s in segs if not s.is_control), [s.text for s in segs if s.is_control]
 
 
-def canon_render(console, make, mw):
-    """canonical answer of a render query; `make()` builds the object (constructor errors are answers too)."""
+def runs(segs, styled):
+    """adjacent non-control segments of equal style merged, empty ones dropped"""
+    out = []
+    for s in segs:
+        if s.is_control or not s.text:
+            continue
+        st = enc_style(s.style) if styled else "-"
+        if out and out[-1][0] == st:
+            out[-1][1] += s.text
+        else:
+            out.append([st, s.text])
+    return out
+
+
+def canon_render(console, make, mw, env=None, styled=False):
+    """canonical answer of a render query; `make()` builds the object (constructor errors are answers too).
+    Returns (answer, text, segments)."""
     try:
         obj = make()
-        text, ctl = render_text(console, obj, mw)
+        segs = render_segments(console, obj, mw, env)
     except Exception as ex:  # the error branch is part of the statement
-        return "err:" + type(ex).__name__, None
-    return "ok:" + enc_str(text) + "#" + ",".join(enc_str(t) for t in ctl), text
+        return "err:" + type(ex).__name__, None, None
+    text = "".join(s.text for s in segs if not s.is_control)
+    ctl = [s.text for s in segs if s.is_control]
+    return "ok:" + "|".join(st + ";" + enc_str(t) for st, t in runs(segs, styled)) + "#" + ",".join(enc_str(t) for t in ctl), text, segs
 
 
-def canon_measure(console, make, mw):
+def canon_measure(console, make, mw, env=None):
     from rich.measure import Measurement
 
     try:
@@ -269,13 +385,13 @@ def canon_measure(console, make, mw):
 
 
 def enc_seg(s):
-    return enc_str(s.text) + ";" + enc_bool(bool(s.is_control))
+    return enc_str(s.text) + ";" + enc_style(s.style) + ";" + enc_bool(bool(s.is_control))
 
 
 class Leaf:
     """A child oracle: the real renderable tabulated for widths 0..wtab on one console."""
 
-    def __init__(self, console, obj, wtab, label):
+    def __init__(self, console, obj, wtab, label, env=None):
         from rich.measure import Measurement
 
         self.obj, self.label, self.wtab = obj, label, wtab
@@ -284,7 +400,7 @@ class Leaf:
         for w in range(1, wtab + 1):
             m = Measurement.get(console, obj, w)
             self.measures.append((m.minimum, m.maximum))
-            self.renders.append(render_segments(console, obj, w))
+            self.renders.append(render_segments(console, obj, w, env))
 
     def text_at(self, w):
         return "".join(s.text for s in self.renders[w] if not s.is_control) if 0 <= w <= self.wtab else None
@@ -319,7 +435,7 @@ class Batch:
 
     def add(self, kind, variant, mw, expr, impl, readable):
         self.queries.append((f"{kind},{variant},{mw},{enc(expr, self.names, self.console)}", impl, readable))
-        self.ctx.note("fn:frames_" + ("render" if kind == "R" else "measure"))
+        self.ctx.note("fn:frames_" + {"R": "render_text", "S": "render_styled", "M": "measure"}[kind])
         self.ctx.note("frame:" + expr[0])
 
     def flush(self):
@@ -362,6 +478,10 @@ def _dec(ans):
     from core import dec_str
 
     if ans.startswith("ok:"):
+        try:
+            return "ok:" + repr([(r.split(";")[0], dec_str(r.split(";")[1])) for r in ans[3:].split("#")[0].split("|") if r])
+        except Exception:
+            return ans
         body = ans[3:].split("#")[0]
         try:
             return "ok:" + repr(dec_str(body))
